@@ -366,11 +366,38 @@ def cube_body(ctx, case):
         ctx.close(rhs, lhs, 1e-10 if case["dtype"] != "complex64" else 1e-4, "Parseval on a %s cube of %s" % (case["dtype"], shape), scale=lhs)
 
 
+# ------------------------------------------------------------------ concurrent calls from threads of one process
+
+def thread_cases(tier):
+    return [{"fn": fn, "shape": sh} for fn in ("ft2", "ift2", "ft", "ift", "rft2", "irft2") for sh in ((128, 128), (3, 96, 96))]
+
+
+def thread_body(ctx, case):
+    """Frames transformed at the same time by threads of one process (a thread pool over frames) come out as the frames
+    transformed one after the other."""
+    fn, shape = case["fn"], tuple(case["shape"])
+    f = entry(fn, "module")
+    ctx.case(case, nontrivial=True, classes=[fn])
+    rng = gen.np_rng(len(fn) * 31 + len(shape))
+    N = shape[-1]
+    xs = []
+    for i in range(8):
+        x = rng.normal(size=shape)
+        if fn in ("ft2", "ift2", "ft", "ift") and i % 2:
+            x = x + 1j * rng.normal(size=shape)
+        if fn == "irft2":
+            x = entry("rft2", "module")(x, 0.5)
+        xs.append(x)
+    arg = 0.5 if fn in ("ft", "ft2", "rft2") else 1.0 / (N * 0.5)
+    ctx.thread_agreement([(lambda x=x: f(x, arg)) for x in xs], fn)
+
+
 def self_test():
     dft.self_test()
 
 
 LAWS = [
+    plain_law("threads", thread_cases, thread_body, shards={"quick": 4, "thorough": 4}),
     plain_law("large_cubes", cube_cases, cube_body, shards={"quick": 4, "thorough": 4}),
     given_law("dft1_xl", sig1(False, 400), body_1d, {"quick": 0, "thorough": 150}, shards={"quick": 1, "thorough": 16}),
     given_law("dft2_xl", sig1(True, 64), body_2d, {"quick": 0, "thorough": 60}, shards={"quick": 1, "thorough": 16}),
